@@ -78,10 +78,13 @@ def newer(src_glob, target):
     return False
 
 
-def gen_overlay():
-    """Map every file under harness/{cmd,lib,inpkg} to a NEW path inside the go-f3 module."""
+def gen_overlay(name=None):
+    """Map files under harness/{cmd/<name>,lib,inpkg} to NEW paths inside the go-f3 module.
+    Only in-package accessor files whose name starts with `<area>_` (area = harness name without h_) or
+    `common_` are included, so one area's accessors never affect another area's build."""
+    area = (name or "")[2:] if (name or "").startswith("h_") else (name or "")
     repl = {}
-    for root, _, files in os.walk(os.path.join(HARNESS, "cmd")):
+    for root, _, files in os.walk(os.path.join(HARNESS, "cmd", name) if name else os.path.join(HARNESS, "cmd")):
         for f in files:
             if f.endswith(".go"):
                 rel = os.path.relpath(os.path.join(root, f), HARNESS)
@@ -94,14 +97,14 @@ def gen_overlay():
     inpkg = os.path.join(HARNESS, "inpkg")
     for root, _, files in os.walk(inpkg):
         for f in files:
-            if f.endswith(".go"):
+            if f.endswith(".go") and (name is None or f.startswith(area + "_") or f.startswith("common_")):
                 pkg = os.path.relpath(root, inpkg)
                 pkg = "" if pkg == "root" else pkg.replace("__", "/")
                 dst = os.path.join(REPO, pkg, "zz_verif_" + f)
                 if os.path.exists(dst):
                     raise SystemExit("overlay would shadow an existing file: " + dst)
                 repl[dst] = os.path.join(root, f)
-    path = os.path.join(WORK, "overlay.json")
+    path = os.path.join(WORK, "overlay%s.json" % ("." + name if name else ""))
     os.makedirs(WORK, exist_ok=True)
     with open(path, "w") as fh:
         json.dump({"Replace": repl}, fh, indent=1)
@@ -258,7 +261,7 @@ def build_driver(area):
 def build_harness(name, race=False):
     """go build (tag verif, add-only overlay) from /repo's working tree. Returns (path|None, output)."""
     with Lock():
-        ov = gen_overlay()
+        ov = gen_overlay(name)
         os.makedirs(BIN, exist_ok=True)
         tgt = os.path.join(BIN, name + ("_race" if race else ""))
         cmd = ["go", "build", "-tags", "verif", "-overlay", ov, "-o", tgt]
